@@ -23,8 +23,9 @@ def program_info(training_file, rule_name, encoding='utf-8', coverage=0.6, ngram
             'alphabet': 'abcdefghijklmnopqrstuvwxyzABCDEFGHIJKLMNOPQRSTUVWXYZ0123456789!.*@-_$#<?', 'smoothing': 0.01,
             'coverage': coverage, 'max_len': max_len, 'multiword': multiword}
 
-def train(data, rules_path, **opts):
-    """data: bytes of the training file.  Runs the real run_trainer with monitors installed; returns TrainResult."""
+def train(data, rules_path, multiword_data=None, **opts):
+    """data: bytes of the training file.  Runs the real run_trainer with monitors installed; returns TrainResult.
+    multiword_data: bytes of a --multiword pre-training word list (its reader pass is recorded in res.multiword_pass, not in res.passes)."""
     repo.scratch()
     import lib_trainer.run_trainer as rt
     import lib_trainer.pcfg_password_parser as ppp
@@ -34,6 +35,13 @@ def train(data, rules_path, **opts):
     tf = rules_path.rstrip('/') + '.train.txt'
     with open(tf, 'wb') as f:
         f.write(data)
+    mwf = None
+    if multiword_data is not None:
+        mwf = rules_path.rstrip('/') + '.multiword.txt'
+        with open(mwf, 'wb') as f:
+            f.write(multiword_data)
+        opts['multiword'] = mwf
+    res.multiword_pass = None
     info = program_info(tf, os.path.basename(rules_path), **opts)
     # ---- monitors
     orig_bsc = ppp.base_structure_creation
@@ -49,7 +57,10 @@ def train(data, rules_path, **opts):
     orig_read = tfi.TrainerFileInput.read_password
     def read_password(self):
         rec = {'yielded': [], 'prefixcount': self.prefixcount, 'obj': self}
-        res.passes.append(rec)
+        if mwf is not None and self.filename == mwf:
+            res.multiword_pass = rec
+        else:
+            res.passes.append(rec)
         for pw in orig_read(self):
             rec['yielded'].append(pw)
             yield pw
@@ -77,11 +88,13 @@ def train(data, rules_path, **opts):
         ppp.PCFGPasswordParser.parse = orig_parse
         tfi.TrainerFileInput.read_password = orig_read
         rt.save_omen_rules_to_disk = orig_save_omen
-        try:
-            os.remove(tf)
-        except FileNotFoundError:
-            pass
-    for rec in res.passes:
+        for f in (tf, mwf):
+            try:
+                if f:
+                    os.remove(f)
+            except FileNotFoundError:
+                pass
+    for rec in res.passes + ([res.multiword_pass] if res.multiword_pass else []):
         o = rec.pop('obj')
         rec['num_passwords'] = o.num_passwords
         rec['num_encoding_errors'] = o.num_encoding_errors
